@@ -47,6 +47,7 @@ static void run(int tier, int prog) {
   MV_CHECK(jc.sleep_q->head == 0, "a waiter is still on the join counter's sleep queue");
   myth_join_counter_wait(&jc);  /* afterwards: returns immediately */
   mv_obs("N=%d released=%d", cur->N, released);
+  h_join_counter_epilogue(&jc, prog & 1);
   mv_finish();
 }
 static const char * const cover_names[] = { "waiter_arrived_before_last_dec", "waiter_arrived_after_last_dec", 0 };
